@@ -365,6 +365,18 @@ class Ctx:
         return res
 
     # ---------------------------------------------------------------- verdicts
+    def known_finding(self, fid, detail=""):
+        """A check that has recognised the exact fingerprint of a recorded genuine defect calls this with the
+        finding id.  Returns True and schedules the KNOWN-FINDING line iff known_findings.json lists it as open;
+        otherwise returns False and the caller must report a violation (fixed entries suppress nothing)."""
+        for kf in self._known_findings:
+            if kf.get("id") == fid and kf.get("status", "open") == "open":
+                line = "KNOWN-FINDING: property=%s %s" % (self.pid, kf.get("what", fid))
+                if line not in self.known:
+                    self.known.append(line)
+                return True
+        return False
+
     def violation(self, desc, replay_obj):
         fp = fingerprint(replay_obj)
         for kf in self._known_findings:
